@@ -105,6 +105,18 @@ def r2(cx):
         if t["callee"] == "parking_lot::lock_api::RwLock::<R, T>::write":
             if M.has_field(M.operand_origins(lb, t["args"][0], at=(bi, M.T)), None, ".registered_metrics_paths"):
                 n_w += 1
+    # the record follows the table: it is written only behind a successful (re-)registration of this call - never ahead of it.  The routine awaits (schema inference reads
+    # parquet footers); a request dropped at such a point after the record was moved leaves the record naming a set the table does not hold, and every later request for
+    # that set takes the equality short-cut against another query's chunks
+    early_w = []
+    for bi, t in lb.calls():
+        if t["callee"] == "parking_lot::lock_api::RwLock::<R, T>::write" and M.has_field(M.operand_origins(lb, t["args"][0], at=(bi, M.T)), None, ".registered_metrics_paths"):
+            if not lb.dominated_by_edges(bi, rs | es):
+                early_w.append(bi)
+    if early_w:
+        cx.violation(lk, "record-written-after-registration", "%s: the record of the registered chunk set is written before the table registration it describes has succeeded" % lb.sp(early_w[0]), [lb.sp(early_w[0])])
+    elif n_w >= 1:
+        cx.passed(lk, "record-written-after-registration", [], "%d writes, all behind a successful registration" % n_w)
     if n_w >= 1:
         cx.passed(lk, "records-registered-set", [], "%d writes" % n_w)
     else:
